@@ -2,7 +2,9 @@
    Executable definitions only.
 
    Source anchor: /repo/ddnnife/src/ddnnf/anomalies/config_creation.rs
-     static ENUMERATION_CACHE : Mutex<HashMap<Vec<i32>, usize>>       (the shared cursor map)
+     Ddnnf.enumeration_cursor : Arc<Mutex<HashMap<Vec<i32>, usize>>> (the cursor map shared by
+                                  the clones of ONE loaded model, i.e. by the stream workers; before
+                                  the repair F21 the process-global static ENUMERATION_CACHE)
      Ddnnf::enumerate                                                   (one request)
 
    Abstraction: for an assumption key A (Enumerate.enum_key: the assumption list sorted by feature,
